@@ -65,14 +65,20 @@ def cases(tier, seed):
         for split in ([5], [2, 3]):
             # training with residual-adaptive refinement active (the generator state it returns is compared too)
             out.append(dict(kind="ode", opt=opt, n=4, b=2, aux="none", tracked="none", split=split, key=seed + 5, path="while_loop", rar=True))
+    for opt in B["opts"]:
+        for kind in B["kinds"]:
+            # the default floating-point mode of JAX (32 bit): same programs, tolerance 1e-4
+            out.append(dict(kind=kind, opt=opt, n=5, b=2, aux="both", tracked="eq", split=[3], key=seed + 5, path="while_loop", x64=False))
+            out.append(dict(kind=kind, opt=opt, n=4, b=2, aux="none", tracked="none", split=[2, 2], key=seed + 5, path="while_loop", x64=False))
     out.sort(key=lambda c: (len(c["split"]), sum(c["split"]), c["aux"] != "none", c["tracked"] != "none"))
     return out
 
 
-def compare(site, out, ref, n_iter, tracked):
+def compare(site, out, ref, n_iter, tracked, tol0=1e-10):
     v = []
 
-    def chk(name, a, b, tol=1e-10):
+    def chk(name, a, b, tol=None):
+        tol = tol0 if tol is None else tol
         ok, msg = tl.leaves_close(a, b, tol)
         if not ok:
             v.append(V(site, f"{name}_differs_from_reference_loop", msg))
@@ -117,7 +123,8 @@ def run_case(case):
                 kw["obs_batch_sharding"] = jax.sharding.SingleDeviceSharding(jax.devices()[0])
             out = jinns.solve(n_iter=k, init_params=params, data=data, loss=P["loss"], optimizer=opt, opt_state=opt_state,
                               tracked_params=tracked, param_data=P["param_data"], obs_data=P["obs_data"], verbose=False, **kw)
-        v = compare(site + ("/python_loop" if case.get("path") == "python_loop" else "") + ("/resumed" if seg else ""), out, ref, k, tracked)
+        v = compare(site + ("/python_loop" if case.get("path") == "python_loop" else "") + ("/resumed" if seg else ""), out, ref, k, tracked,
+                    1e-10 if case.get("x64", True) else 1e-4)
         states += 1
         tot = ref["totals"]
         if len(tot) >= 2 and np.min(np.abs(np.diff(tot))) > 1e-6 * (1 + np.max(np.abs(tot))):
